@@ -75,6 +75,7 @@ def worker_main(argv):
             rng = case_rng(pid, seed, i)
             t0 = time.time()
             del run.CONTRACT_FAILS[:]
+            del run.FD_LEAKS[:]
             run.CONTRACT_COUNTS.clear()
             try:
                 case = prop.gen_case(rng, i, tier)
@@ -105,6 +106,15 @@ def worker_main(argv):
                     res['violations'].append({'mechanism': m, 'detail': c})
                     if res.get('verdict') == 'ok':
                         res['verdict'] = 'violation'
+            if run.FD_LEAKS and 'resource:descriptors-left-open' not in have:
+                # the resource monitor: a command that ends with descriptors
+                # still open on files of the sandbox leaks one per entry or
+                # argument - at scale every later open fails with EMFILE
+                res['violations'].append({
+                    'mechanism': 'resource:descriptors-left-open',
+                    'detail': {'runs': run.FD_LEAKS[:4]}})
+                if res.get('verdict') == 'ok':
+                    res['verdict'] = 'violation'
             res.setdefault('features', [])
             res.setdefault('nontrivial', False)
             if 'key' not in res:
